@@ -8,9 +8,13 @@ PID = "C09"
 RULE = ("exact_card / clause_card / card / support / size_per_var on: every function of <=3 variables; random functions over 4..12 support "
         "variables embedded with arbitrary level gaps into variable counts {0,1,5,63,64,65,200,1023,1024,1025,2000,5000} (<=200 nodes); "
         "single-valuation chains, long conjunctions/disjunctions over up to 5000 variables; valid non-canonical variants (duplicates, redundant "
-        "tests, permuted order, unreachable nodes, non-canonical diagrams of the empty set incl. root variables >= 1024). relations: counts are "
+        "tests, permuted order, unreachable nodes, non-canonical diagrams of the empty set incl. root variables >= 1024); HEAVY SHARING over 60..90 "
+        "variables: and / or / xor / at-least-k combinations of and-/or-groups (2..4 literals, random polarities, disjoint contiguous variable "
+        "groups with random gaps), parities, their negations and valid non-canonical variants (up to 3^30 root-to-1 paths on <=400 nodes: only a "
+        "per-node cache counts them), plus or/and/not of two such diagrams computed by the library, with the additive identities; the generator "
+        "asserts the closed-form count of each formula against the array counters. relations: counts are "
         "compared as decimal strings with the model (exact) and with an independent count (popcount of the truth table over the support x "
-        "2^(nv-|support|) when |support|<=12, raw-array DP otherwise); card: the f64 bit pattern is decoded to NaN/inf/exact integer and must equal "
+        "2^(nv-|support|) when |support|<=12, else two raw-array counters that must agree: bottom-up DP and memoised recursion from the root); card: the f64 bit pattern is decoded to NaN/inf/exact integer and must equal "
         "the model's binary64 value exactly, and independently satisfy |card - exact| <= exact*((1+2^-53)^d - 1), d = decision nodes, with +inf "
         "only when exact*(1+2^-53)^d reaches the overflow threshold; support/size_per_var equal the model's sorted lists, the raw-array recount, "
         "and for canonical inputs with |support|<=10 the set of variables on which the truth table depends. identities on the implementation's "
@@ -74,6 +78,182 @@ def sparse_function(rng, nv, k):
         if len(b) <= 200:
             return b
     return bdd_from_tt(nv, variables[:4], [rng.random() < 0.5 for _ in range(16)])
+
+
+# ----------------------------------------------------------------------------- diagrams with heavy sharing (60..90 variables)
+class Builder:
+    """hash-consing construction of a reduced ordered diagram; finish() lays it out in the library's order"""
+    def __init__(self, nv):
+        self.nv = nv
+        self.nodes = [(nv, 0, 0), (nv, 1, 1)]
+        self.uniq = {}
+
+    def mk(self, v, l, h):
+        if l == h:
+            return l
+        k = (v, l, h)
+        if k not in self.uniq:
+            self.uniq[k] = len(self.nodes)
+            self.nodes.append(k)
+        return self.uniq[k]
+
+    def group(self, kind, lits, T, F):
+        """entry of the and-/or-chain over lits (sorted by variable) that continues at T when the group holds, at F otherwise"""
+        cur = None
+        for x, pos in reversed(lits):
+            if kind == "or":
+                cont, out = (F if cur is None else cur), T      # literal false: next literal (or F); literal true: T
+                l, h = (cont, out) if pos else (out, cont)
+            else:
+                cont, out = (T if cur is None else cur), F      # literal true: next literal (or T); literal false: F
+                l, h = (out, cont) if pos else (cont, out)
+            cur = self.mk(x, l, h)
+        return cur
+
+    def finish(self, root):
+        return canonical_layout(self.nodes, root)
+
+
+def canonical_layout(nodes, root):
+    """re-index the nodes reachable from root in DFS post-order, high child first, root last (the library's layout)"""
+    nv = nodes[0][0]
+    if root == 0:
+        return [(nv, 0, 0)]
+    out = [(nv, 0, 0), (nv, 1, 1)]
+    idx = {0: 0, 1: 1}
+    stack = [(root, 0)]
+    while stack:
+        p, stage = stack.pop()
+        if p in idx:
+            continue
+        v, l, h = nodes[p]
+        if stage == 0:
+            stack.append((p, 1))
+            stack.append((l, 0))
+            stack.append((h, 0))      # on top: visited first
+        else:
+            idx[p] = len(out)
+            out.append((v, idx[l], idx[h]))
+    return out
+
+
+def negate_raw(nodes):
+    """the diagram of the negation: terminal links swapped (same shape, same layout)"""
+    if len(nodes) == 1:
+        return [nodes[0], (nodes[0][0], 1, 1)]
+    if len(nodes) == 2:
+        return [nodes[0]]
+    sw = {0: 1, 1: 0}
+    return list(nodes[:2]) + [(v, sw.get(l, l), sw.get(h, h)) for (v, l, h) in nodes[2:]]
+
+
+def shared_formula(rng, nv=None, outer=None):
+    """(nv, outer, k, groups): outer in and/or/xor/atleast over and-/or-groups of literals on disjoint contiguous variable ranges"""
+    nv = nv or rng.randint(60, 90)
+    outer = outer or rng.choice(["and", "and", "or", "or", "xor", "atleast", "parity"])
+    groups, x = [], rng.choice([0, 0, 1, 2])
+    inner = rng.choice(["or", "and", "mixed"]) if outer in ("xor", "atleast") else {"and": "or", "or": "and", "parity": "or"}[outer]
+    while True:
+        sz = 1 if outer == "parity" else rng.choice([2, 3, 3, 4])
+        if x + sz > nv:
+            break
+        kind = rng.choice(["or", "and"]) if inner == "mixed" else inner
+        groups.append((kind, [(x + j, rng.random() < 0.7) for j in range(sz)]))
+        x += sz + (rng.choice([0, 0, 0, 1, 2]) if rng.random() < 0.5 else 0)      # level gaps between groups
+    if outer == "atleast":
+        groups = groups[:rng.randint(8, 16)]
+    k = rng.randint(2, 4) if outer == "atleast" else 0
+    return nv, ("xor" if outer == "parity" else outer), k, groups
+
+
+def shared_build(f):
+    nv, outer, k, groups = f
+    B = Builder(nv)
+    memo = {}
+
+    def go(i, state):
+        if outer == "atleast" and state >= k:
+            return 1
+        if i == len(groups):
+            return 1 if outer == "and" or (outer == "xor" and state) else 0      # or: no group held; atleast: fewer than k held
+        if (i, state) not in memo:
+            kind, lits = groups[i]
+            if outer == "and":
+                T, F = go(i + 1, 0), 0
+            elif outer == "or":
+                T, F = 1, go(i + 1, 0)
+            elif outer == "xor":
+                T, F = go(i + 1, 1 - state), go(i + 1, state)
+            else:
+                T, F = go(i + 1, state + 1), go(i + 1, state)
+            memo[(i, state)] = B.group(kind, lits, T, F)
+        return memo[(i, state)]
+    return B.finish(go(0, 0))
+
+
+def shared_closed_form(f):
+    """the number of models of the formula, from the formula alone (disjoint groups are independent)"""
+    nv, outer, k, groups = f
+    used = sum(len(l) for _, l in groups)
+    sat = [((1 << len(l)) - 1 if kind == "or" else 1, 1 << len(l)) for kind, l in groups]     # (satisfying, all) per group
+    if outer in ("and", "or"):
+        prod = 1
+        for t, a in sat:
+            prod *= t if outer == "and" else a - t
+        total = prod if outer == "and" else (1 << used) - prod
+    elif outer == "xor":
+        even, odd = 1, 0
+        for t, a in sat:
+            even, odd = even * (a - t) + odd * t, odd * (a - t) + even * t
+        total = odd
+    else:
+        dist = [1] + [0] * len(sat)       # dist[c] = assignments making exactly c groups true
+        for t, a in sat:
+            dist = [dist[c] * (a - t) + (dist[c - 1] * t if c else 0) for c in range(len(dist))]
+        total = sum(dist[k:])
+    return total << (nv - used)
+
+
+def shared_diagram(rng, nv=None, outer=None, max_nodes=400):
+    """a canonical diagram with heavy sharing and its closed-form count (generator sanity: both array counters agree with it)"""
+    for _ in range(50):
+        f = shared_formula(rng, nv, outer)
+        b = shared_build(f)
+        if 3 <= len(b) <= max_nodes:
+            want = shared_closed_form(f)
+            assert is_canonical(b)[0], "generator: shared diagram is not canonical"
+            assert raw_count(b) == want == dp_counts(b)[0], "generator: closed form and array counters disagree"
+            return b
+    raise RuntimeError("generator: no shared diagram within %d nodes" % max_nodes)
+
+
+def shared_programs(rng, P, progs, quick):
+    n1 = 70 if quick else 2500
+    pool = {}
+    for i in range(n1):
+        b = shared_diagram(rng)
+        r = rng.random()
+        if r < 0.3:
+            b = negate_raw(b)
+        v = rng.random()
+        if v < 0.15:
+            b = noncanonical_variant(rng, b)
+        elif v < 0.2:
+            b = empty_variant(rng, b)
+        family(P, b)
+        pool.setdefault(b[0][0], []).append(b)
+    # or / and / not of two such diagrams over the same variables, computed by the library; identities on its own numbers
+    for _ in range(10 if quick else 400):
+        nv = rng.randint(60, 90)
+        a = shared_diagram(rng, nv=nv, max_nodes=100 if quick else 160)
+        b = shared_diagram(rng, nv=nv, max_nodes=100 if quick else 160)
+        if rng.random() < 0.3:
+            a = negate_raw(a)
+        if rng.random() < 0.3:
+            b = negate_raw(b)
+        prog = identity_prog(a, b)
+        prog += [["fo", "card", "$n"], ["ko", "clause_card", "$o"], ["kn", "clause_card", "$n"], ["kna", "clause_card", "$na"]]
+        progs.append(prog)
 
 
 def family(P, b, with_clauses=False):
@@ -166,6 +346,8 @@ def programs(rng, tier):
         if len(a) * len(b) > 6000:
             continue
         progs.append(identity_prog(a, b))
+    # (5) heavy sharing over 60..90 variables
+    shared_programs(rng, P, progs, quick)
     return progs + P.progs
 
 
@@ -242,7 +424,10 @@ def _oracle_count(nodes):
     if st is not None:
         vs, tt = st
         return "truth-table", sum(tt) << (nv - len(vs))
-    return "raw-array-dp", dp_counts(nodes)[0]
+    dp, memo = dp_counts(nodes)[0], raw_count(nodes)
+    if dp != memo:
+        raise RuntimeError("C09 oracle: the two independent raw-array counters disagree on " + sx_str(bdd_sx(nodes))[:400])
+    return "raw-array-dp+memoised-recursion", dp
 
 
 def decode_f64(a):
@@ -329,6 +514,10 @@ def judge(st, V):
     sample(V, st)
     canonical = is_canonical(nodes)[0]
     V.count("canonical" if canonical else "non-canonical")
+    if op in ("exact_card", "clause_card", "card"):
+        npaths = dp_counts(nodes)[1]
+        V.count("paths:" + ("0" if npaths == 0 else "<=2^12" if npaths <= 1 << 12 else "<=2^20" if npaths <= 1 << 20 else
+                            "<=2^32" if npaths <= 1 << 32 else ">2^32"))
     if op in ("exact_card", "clause_card"):
         if op == "exact_card":
             how, want = oracle_count(nodes)
@@ -432,32 +621,45 @@ def check_identities(V):
             V.violations.append(v)
 
 
-def vm_crosscheck_counts(steps, limit=48):
-    """validates the EXTRACTED counting functions against kernel evaluation: a sample of steps (small operands, every operation,
-    several variable counts) is re-evaluated by coqc with vm_compute and compared with the extracted binary's answers"""
+def vm_crosscheck_counts(steps, limit=60):
+    """validates the EXTRACTED counting functions against kernel evaluation: a sample of steps (every operation, several variable
+    counts, small operands and diagrams with heavy sharing) is re-evaluated by coqc with vm_compute and compared with the extracted
+    binary's answers: the function the driver runs (the memoised `_auto` twins of Model/CountFast.v) on every sampled step, and the
+    un-memoised reference function of Model/Count.v as well wherever it is feasible (few paths)"""
     import re
     import tempfile
     fn = {"exact_card": "exact_cardinality", "clause_card": "exact_clause_cardinality", "card": "cardinality_f64",
           "support": "support_set", "size_per_var": "size_per_variable"}
+    memoised = ("exact_card", "clause_card", "card")
     chosen, per = [], {}
     for st in steps:
         cid, call, impl, model, aux = st
         if call[0] not in fn or not is_bdd(call[1]) or isinstance(model, str) and model.startswith(MACHINERY):
             continue
         nodes = bdd_nodes(call[1])
-        k = (call[0], nodes[0][0] >= 1024, len(nodes) >= 3)
-        if len(nodes) > 40 or per.get(k, 0) >= 4:
+        if not is_wf(nodes):
+            continue
+        shared = call[0] in memoised and len(nodes) >= 3 and dp_counts(nodes)[1] > 1 << 20
+        k = (call[0], nodes[0][0] >= 1024, len(nodes) >= 3, shared)
+        if len(nodes) > (400 if shared else 40) or per.get(k, 0) >= 4:
             continue
         per[k] = per.get(k, 0) + 1
-        chosen.append(st)
+        chosen.append((st, shared))
         if len(chosen) >= limit:
             break
     if not chosen:
         return 0, 0
-    lines = ["From Coq Require Import List NArith. Import ListNotations.", "From BddVerif Require Import Model.Bdd Model.Count.",
+    lines = ["From Coq Require Import List NArith. Import ListNotations.", "From BddVerif Require Import Model.Bdd Model.Count Model.CountFast.",
              "Open Scope N_scope."]
-    for (cid, call, impl, model, aux) in chosen:
-        lines.append("Eval vm_compute in (%s [%s])." % (fn[call[0]], "; ".join("mkNode %d %d %d" % nd for nd in bdd_nodes(call[1]))))
+    evals = []        # index into chosen, one entry per Eval line
+    for i, ((cid, call, impl, model, aux), shared) in enumerate(chosen):
+        arr = "[%s]" % "; ".join("mkNode %d %d %d" % nd for nd in bdd_nodes(call[1]))
+        if call[0] in memoised:
+            lines.append("Eval vm_compute in (%s_auto %s)." % (fn[call[0]], arr))
+            evals.append(i)
+        if not shared:
+            lines.append("Eval vm_compute in (%s %s)." % (fn[call[0]], arr))
+            evals.append(i)
     with tempfile.TemporaryDirectory() as d:
         path = os.path.join(d, "cases.v")
         open(path, "w").write("\n".join(lines) + "\n")
@@ -465,18 +667,20 @@ def vm_crosscheck_counts(steps, limit=48):
     if rc != 0:
         raise RuntimeError("vm_compute cross-check of the counting model failed to compile: " + (out + err)[-2000:])
     vals = re.findall(r"=\s*(.*?)\n\s*:\s", out, flags=re.S)
-    agree = 0
-    for (cid, call, impl, model, aux), v in zip(chosen, vals):
+    if len(vals) != len(evals):
+        raise RuntimeError("vm_compute cross-check of the counting model: %d answers for %d evaluations" % (len(vals), len(evals)))
+    good = [True] * len(chosen)
+    for i, v in zip(evals, vals):
+        model = chosen[i][0][3]
         got = re.findall(r"\d+|FInf|FNaN", v)
         want = [{"INF": "FInf", "NAN": "FNaN"}.get(t, t) for t in re.findall(r"\d+|INF|NAN", sx_str(model))]
-        if got == want:
-            agree += 1
-    if len(vals) != len(chosen):
-        agree = min(agree, len(vals))
-    return len(chosen), agree
+        if got != want:
+            good[i] = False
+    _cross[2] = sum(1 for _, sh in chosen if sh)
+    return len(chosen), sum(good)
 
 
-_cross = [0, 0]
+_cross = [0, 0, 0]
 
 
 def finalize(steps, V):
@@ -489,4 +693,4 @@ def finalize(steps, V):
 
 
 def extra(V):
-    return {"vm_compute_crosscheck_counting_model": {"cases": _cross[0], "agree": _cross[1]}}
+    return {"vm_compute_crosscheck_counting_model": {"cases": _cross[0], "agree": _cross[1], "cases_with_more_than_2^20_paths": _cross[2]}}
